@@ -231,7 +231,15 @@ var c16Encoders = []struct {
 func (w *c16Worker) caseConvCase(txt string, cs map[string]any) {
 	r := w.r
 	ident := txt
-	switch r.Intn(4) {
+	switch r.Intn(5) {
+	case 2: // letters whose case mapping changes the UTF-8 length or is not a bijection, mixed with ASCII and separators
+		pool := []rune("İKẞǄǅǆΣςσßﬁéÉ世ŉǰΐAZBaz09__--")
+		n := 1 + r.Intn(12)
+		rs := make([]rune, n)
+		for i := range rs {
+			rs[i] = pool[r.Intn(len(pool))]
+		}
+		ident = string(rs)
 	case 0: // an identifier-like text, mutated
 		ts := genIdent(r, true)
 		s, _ := render(ts)
